@@ -94,9 +94,9 @@ def tempBanMsg : Bytes :=
   [89, 111, 117, 32, 97, 114, 101, 32, 116, 101, 109, 112, 111, 114, 97, 114, 105, 108, 121, 32, 98, 97, 110, 110, 101, 100,
    32, 111, 110, 32, 116, 104, 105, 115, 32, 115, 101, 114, 118, 101, 114]
 
-/-- `sendBanMessage`: server message (104) with a random id, data (101) and chat options (113) = 0. -/
+/-- `sendBanMessage`: server message (104) with a random id, data (101) and chat options (109) = 0. -/
 def banNotice (id : Nat) (permanent : Bool) : Transaction :=
-  ⟨0, 0, 104, id, 0, [⟨101, if permanent then permBanMsg else tempBanMsg⟩, ⟨113, [0, 0]⟩]⟩
+  ⟨0, 0, 104, id, 0, [⟨101, if permanent then permBanMsg else tempBanMsg⟩, ⟨109, [0, 0]⟩]⟩
 
 /-- The guest fallback applies to the empty login only. -/
 theorem loginOf_empty (t : Transaction) (h : (getField t 105).data = []) : loginOf t = guestLogin := by
